@@ -3,6 +3,7 @@ import Bclv.Verifier
 import Bclv.Model.Args
 import Bclv.Model.ProtoRun
 import Bclv.Model.BindWire
+import Bclv.Model.Scoped
 /-!
 # Line-protocol driver: one operation per input line, one result line per operation.
 All payloads are hexadecimal.
@@ -125,6 +126,11 @@ def runOp (words : List String) : String :=
       else .dataEof (fromHex (t.drop 1).toString)
     let its := if items == "-" then [] else (items.splitOn ",").map parseItem
     Bclv.Proto.protoAnswer cap.toNat! (fromHex name) its
+  | ["SCOPED", src] =>
+    let input := fromHex src
+    let r := parseTokens (lexWhole input) (newlinesFrom 0 input)
+    if !r.ok then "rejected" else
+    s!"scoped={if scP r.consts r.prog then 1 else 0} consts={r.consts.length}"
   | ["BIND", payload] => Bclv.Bind.bindAnswer payload
   | ["ARGS", argv] =>
     let args : List Bclv.Args.Arg := if argv == "-" then [] else
